@@ -7,6 +7,7 @@ import Pyunicorn.Lemmas.RandomF
 import Pyunicorn.Lemmas.RandomG
 import Pyunicorn.Lemmas.RandomH
 import Pyunicorn.Lemmas.RandomI
+import Pyunicorn.Lemmas.RandomJ
 /-!
 # C17 — random models and rewirings keep their documented invariants
 
@@ -1434,6 +1435,42 @@ theorem geoMethod_defined_binary64 (rnd : Rat → Rat) (hn : B64.Nearest rnd) (m
   simp only
   omega
 
+/-! ### round 5: the executable roundings *are* IEEE round-to-nearest — no hypothesis on the rounding left -/
+
+/-- **the binary64 rounding the driver executes is a round-to-nearest**: for every rational `x` (not
+only multiples of `2^-1074`) no double is nearer to `x` than `rnd64 x`, and `rnd64 x` is a double.
+(Round 4 compared `rnd64` with the hardware on every run but assumed `B64.Nearest` in the theorems.) -/
+theorem rnd64_round_to_nearest : B64.Nearest rnd64 ∧ ∀ x, B64.IsB64 (rnd64 x) :=
+  ⟨rnd64_nearest, rnd64_isB64⟩
+
+/-- **`np.floor(rd.random() * E)` / `int(random.random() * N)` as executed**: for every double
+`0 ≤ u < 1` and every `1 ≤ E < 2^31` the index computed with the *model's own* binary64 product lies in
+`[0, E)` — `draw_in_range_binary64` with its rounding hypothesis discharged. -/
+theorem draw_in_range_rnd64 (u : Rat) (hu : B64.IsB64 u) (h0 : 0 ≤ u) (h1 : u < 1) (E : Int)
+    (hE : 1 ≤ E) (hE31 : E < 2 ^ 31) :
+    (0 ≤ geoDrawR rnd64 u E ∧ geoDrawR rnd64 u E < E) ∧
+    (0 ≤ sparseDrawR rnd64 u E ∧ sparseDrawR rnd64 u E < E) :=
+  draw_in_range_binary64 rnd64 rnd64_nearest u hu h0 h1 E hE hE31
+
+/-- **no IndexError for the draws the driver replays** (`geoMU` / `geoMD` requests: the model gets the
+53-bit RNG values and evaluates `floor(fl64(u·E))` itself) -/
+theorem geoMethod_defined_rnd64 (mode : GeoMode) (D : Nat → Nat → Int) (eps : Int) (n : Nat) (A : Adj)
+    (iterations : Nat) (us : List (Rat × Rat)) (E : Nat)
+    (sym : ∀ i j, A i j = A j i) (lf : ∀ i, A i i = false)
+    (hE : total A n n = 2 * (E : Int)) (hpos : 0 < E) (h31 : (E : Int) < 2 ^ 31)
+    (hu : ∀ u ∈ us, (B64.IsB64 u.1 ∧ 0 ≤ u.1 ∧ u.1 < 1) ∧ (B64.IsB64 u.2 ∧ 0 ≤ u.2 ∧ u.2 < 1)) :
+    ∃ st', geoMethod mode D eps n A iterations
+      (us.map fun u => ((geoDrawR rnd64 u.1 E).toNat, (geoDrawR rnd64 u.2 E).toNat)) = some st' :=
+  geoMethod_defined_binary64 rnd64 rnd64_nearest mode D eps n A iterations us E sym lf hE hpos h31 hu
+
+/-- **the binary32 rounding of the length conditions is a round-to-nearest to 24 bits**: on integers
+(units of `2^-149`) `rndP p` is `rndQ p` with the sign restored, and no `p`-bit number `±m·2^j` is
+nearer to `n` than `rndP p n` — the model of `D[..] - D[..]` in `float` is IEEE-754 subtraction, not
+merely a faithful rounding. -/
+theorem binary32_round_to_nearest (n : Int) (m : Int) (j : Nat) (hm : m.natAbs < 2 ^ 24) :
+    |((rnd32 n : Int) : Rat) - (n : Rat)| ≤ |((m * 2 ^ j : Int) : Rat) - (n : Rat)| :=
+  rndP_nearest 24 (by decide) n m j hm
+
 /-! ### `_randomlySetCrossLinks`: termination for fair streams -/
 
 /-- a block of draws offers every cell of the `m × n` cross matrix -/
@@ -1535,5 +1572,21 @@ example : condLenC2 (fun i j => if i = 0 ∧ j = 1 then 16777219 else 0) 1677722
 example : Faithful rnd32 16777220 := binary32_faithful _ ⟨4194305, 2, by decide, by decide⟩
 /-- the largest double below 1 times `E = 3`, rounded to binary64, is still below 3 -/
 example : geoDrawR rnd64 (9007199254740991 / 9007199254740992) 3 = 2 := by decide +kernel
+/-- round 5: `rnd64` on arguments that are *not* multiples of `2^-1074` (1/3, a tie between two
+neighbouring doubles above `2^53`, a negative number) and `rndQ` at ties / just off ties -/
+example : rnd64 (1 / 3) = 6004799503160661 / 18014398509481984
+    ∧ rnd64 9007199254740993 = 9007199254740992 ∧ rnd64 9007199254740995 = 9007199254740996
+    ∧ rnd64 (9007199254740993 + 1 / 3) = 9007199254740994
+    ∧ rnd64 (-9007199254740995) = -9007199254740996 := by decide +kernel
+example : rndQ 3 (17 / 2) = 8 ∧ rndQ 3 9 = 8 ∧ rndQ 3 (9 + 1 / 1000) = 10 ∧ rndQ 3 11 = 12
+    ∧ rndQ 3 (7 / 2) = 4 ∧ rndQ 3 (5 / 2) = 2 ∧ rndQ 3 15 = 16 := by decide +kernel
+/-- the hypotheses of `draw_in_range_rnd64` are satisfiable with a draw that is rounded up to the next
+index boundary's predecessor: `u = 1 - 2^-53`, `E = 3` -/
+example : B64.IsB64 (9007199254740991 / 9007199254740992) :=
+  ⟨9007199254740991, 53, by norm_num, by norm_num, Or.inr ⟨by norm_num, by norm_num⟩⟩
+/-- `binary32_round_to_nearest` at a tie: 16777217 lies midway between the 24-bit numbers 16777216 and
+16777218; both are at distance 1 and `rnd32` returns the even one -/
+example : rnd32 16777217 = 16777216 ∧ (4194304 : Int).natAbs < 2 ^ 24 ∧ (8388609 : Int).natAbs < 2 ^ 24
+    ∧ (4194304 : Int) * 2 ^ 2 = 16777216 ∧ (8388609 : Int) * 2 ^ 1 = 16777218 := by decide +kernel
 
 end Pyunicorn.Random
